@@ -69,6 +69,25 @@ add('C16', 'model_checking',
     'all bad kinds, --repeat and --shuffle are validated by TLC against the same clauses.',
     TRUSTED, 'TLA+ spec + TLC model checking + TLC trace validation of real runs', 'DESIGN.md 5/C16')
 
+add('C02', 'model_checking',
+    'Runner.tla is model-checked (design config: every fault placement reaches Done, the '
+    'bad flag is set by exactly the listed causes); real runs - zero, one or several bad '
+    'outcomes of every kind, layer setUp/tearDown failures, NotImplementedError, module '
+    'import failure, spawn failure (Popen interposed), children dying in test phases / '
+    'layer hooks / at import by exit 0 / exit 3 / SIGKILL / SIGSEGV, reports cut at byte '
+    'offsets, stdout / stderr / fd-2 noise incl. header look-alikes, in-process / resumed '
+    '/ -j N - are validated by TLC: exit status == bad(trace), and the verdict of the '
+    'same world with and without noise is equal.',
+    TRUSTED + ' bad(trace) is computed by TLC from the recorded events (what happened), not from the plan.',
+    'TLA+ spec + TLC model checking + TLC trace validation of real runs (fault injection)', 'DESIGN.md 5/C02')
+add('C12', 'model_checking',
+    'TLC recomputes, from the recorded events of each real run and the measured unittest '
+    'result events, the per-layer summary (ran / failures / errors / skipped per iteration), '
+    'the totals and the two name lists (as bags, incl. failed layers) and compares them '
+    'with the parsed report; the same worlds run in-process, with -j N and with a forced '
+    'resume, and TLC compares totals and lists across the modes.',
+    TRUSTED, 'TLA+ spec + TLC trace validation of real runs, cross-mode relation checked by TLC', 'DESIGN.md 5/C12')
+
 NOT_YET = {
 }
 
